@@ -262,6 +262,18 @@ def strategy_nets(rng):
     yield finish(n, "height-differences-elsewhere")
 
 
+def _determined(net):
+    """numpy guard: the design matrix of all observations at the true coordinates has full column rank"""
+    from . import C14
+    try:
+        items = C14.flatten(net)
+        P = C14.approx_points(net)
+        rank, ncols, _ = C14.determinacy(net, items, {it.n for it in items}, P)
+        return rank == ncols
+    except Exception:
+        return True
+
+
 def gen_base(seed, i):
     rng = np.random.default_rng([seed, i, 606])
     dim = int(rng.choice([1, 2, 2, 3, 3]))
@@ -396,6 +408,11 @@ def run(tier, seed, only=None):
         if only is not None and i != only:
             continue
         rng, base, feats = gen_base(seed, i)
+        if "fixed" in base.kind and not _determined(base):
+            # the drawn survey does not determine all its points (e.g. a stand-point with two directions that nobody
+            # observes): gama is right to remove them, nothing to judge here
+            ck.inconc("generated network is not determined (numpy rank guard)")
+            continue
         vs = list(variants(rng, base))
         # monotonicity: a sub-survey (some redundant observations dropped) and the full survey
         for vi, (vname, net) in enumerate(vs):
